@@ -385,8 +385,11 @@ func c14Decode(run *Run, c c14Case) {
 		run.violation(Violation{Key: key, What: what, Input: c, Got: got, Want: want})
 	}
 	switch {
+	case o0.Panicked && o1.Panicked:
+		// the same panic with and without the flag is not about casting: it belongs to C15 (totality)
+		run.count("both-runs-panic(C15)")
 	case o0.Panicked || o1.Panicked:
-		vio("panic", "NewMapXml panicked", o0.text()+" / "+o1.text(), "a Map or an error")
+		vio("panic", "NewMapXml panics with one value of the cast flag only", o0.text()+" / "+o1.text(), "the same outcome class")
 	case c14OutClass(o0) != c14OutClass(o1):
 		vio("cast-changes-error", "the cast flag changes whether / how decoding fails", o1.text(), o0.text())
 	case o0.Err == nil:
@@ -418,8 +421,10 @@ func c14Decode(run *Run, c c14Case) {
 	s1 := c14DecodeSeq(c.Opts, doc, true)
 	run.sum.OracleEvals++
 	switch {
+	case s0.Panicked && s1.Panicked:
+		run.count("seq-both-runs-panic(C15)")
 	case s0.Panicked || s1.Panicked:
-		vio("seq-panic", "NewMapXmlSeq panicked", s0.text()+" / "+s1.text(), "a MapSeq or an error")
+		vio("seq-panic", "NewMapXmlSeq panics with one value of the cast flag only", s0.text()+" / "+s1.text(), "the same outcome class")
 	case c14OutClass(s0) != c14OutClass(s1):
 		vio("seq-cast-changes-error", "the cast flag changes whether / how NewMapXmlSeq fails", s1.text(), s0.text())
 	case s0.Err == nil:
